@@ -293,6 +293,7 @@ def size_search(ctx):
 
 def search(ctx):
     size_search(ctx)
+    G.check_generate_weighted(ctx, ctx.rng('generate-weighted'), ctx.scale(40, 600))
     rng = ctx.rng('search')
     rng2 = ctx.rng('search-independent')
     for k in range(ctx.scale(150, 2500)):
